@@ -236,6 +236,7 @@ def run(ctx):
         "origcount": lambda: ctx.tlc(SPEC, "peers/PoolAtomicOrigCount.cfg", must_pass=False, count=False, timeout=900, workers=1),
         # 4. atomic-method state graph (printed edge by edge)
         "atomic": lambda: ctx.tlc(SPEC, atomic_cfg, timeout=2400, workers=2 if quick else 4),
+        "atomicwake": lambda: ctx.tlc(SPEC, "peers/PoolAtomicWake.cfg", timeout=2400, workers=2),
         # 5. the manager as it is / without the black-list fix / simulated behaviours for the replay
         "mgr": lambda: ctx.tlc("peers/MCManager.tla", mgr_cfg, timeout=2400, workers=max(2, W // 4)),
         "mgrorig": lambda: ctx.tlc("peers/MCManager.tla", "peers/ManagerOrig.cfg", must_pass=False, count=False, timeout=900, workers=1),
@@ -273,16 +274,18 @@ def run(ctx):
         ctx.inconclusive("the model variant without the cool-down counter did not produce the expected NoEarlyReturn "
                          "counterexample (violated=%s)" % r.violated)
 
-    r = R["atomic"]
-    g = Graph(r.printed.get("EDGE", []))
-    if g.root is None:
-        ctx.inconclusive("atomic state graph: no unique root (%d candidates, %d edges)" % (len(g.roots), g.n_edges))
-    else:
-        c = cfg_consts(atomic_cfg)
-        paths, covered = g.paths(rng, 400 if quick else 8000)
-        plan["pool"] = {"ttl": c["TTL"], "cleanup": c["CleanupThreshold"], "slots": c["slots"], "paths": paths}
+    for key, cfg, name, npaths in (("atomic", atomic_cfg, "pool", 300 if quick else 8000),
+                                   ("atomicwake", "peers/PoolAtomicWake.cfg", "pool2", 200 if quick else 3000)):
+        r = R[key]
+        g = Graph(r.printed.get("EDGE", []))
+        if g.root is None:
+            ctx.inconclusive("atomic state graph %s: no unique root (%d candidates, %d edges)" % (cfg, len(g.roots), g.n_edges))
+            continue
+        c = cfg_consts(cfg)
+        paths, covered = g.paths(rng, npaths)
+        plan[name] = {"ttl": c["TTL"], "cleanup": c["CleanupThreshold"], "slots": c["slots"], "paths": paths}
         ctx.cover(pool_graph_edges=g.n_edges, pool_graph_edges_replayed=covered, pool_graph_nodes=len(g.nodes))
-        ctx.log("atomic graph: %d nodes, %d edges; %d paths cover %d edges" % (len(g.nodes), g.n_edges, len(paths), covered))
+        ctx.log("atomic graph %s: %d nodes, %d edges; %d paths cover %d edges" % (cfg, len(g.nodes), g.n_edges, len(paths), covered))
 
     r = R["mgrorig"]
     if r.violated == "BlacklistedNeverOffered":
@@ -363,8 +366,9 @@ def run(ctx):
         ctx.sample(s)
 
     # ---- vacuity / binding sanity
-    if plan.get("pool") and cnt.get("pool_paths_replayed", 0) < len(plan["pool"]["paths"]):
-        ctx.inconclusive("only %s of %d pool paths were replayed" % (cnt.get("pool_paths_replayed"), len(plan["pool"]["paths"])))
+    npaths = sum(len(plan[k]["paths"]) for k in ("pool", "pool2") if k in plan)
+    if cnt.get("pool_paths_replayed", 0) < npaths and not rep.get("violations"):
+        ctx.inconclusive("only %s of %d pool paths were replayed" % (cnt.get("pool_paths_replayed"), npaths))
     fa = summ.get("fine_abba")
     if plan.get("fine") and not fa:
         ctx.inconclusive("the deadlock schedule was not executed")
